@@ -54,7 +54,7 @@ def generate(ctx, escalate=False):
         for pat in itertools.product(["d0", "x", "u0+700"], repeat=k):
             if "u0+700" in pat:
                 out.append(line(pers, D, 1000, 5000, 128, 7, "q", ["C2"], "", list(pat)))
-    n = 60000 if thorough else 6000
+    n = 200000 if thorough else 20000
     if escalate:
         n *= 3
     for _ in range(n):
